@@ -208,10 +208,10 @@ class Check(core.PropertyCheck):
             yield core.Scenario(self._from_behaviour(b, tq, rng), predicted=core.predicted_events(b), source="model")
         if not ctx.quick:
             tt = self._tables("thorough")
-            sims, _ = ctx.simulate(self.MODEL, self.model_constants("thorough"), num=4000, depth=5, timeout=1500)
+            sims, _ = ctx.simulate(self.MODEL, self.model_constants("thorough"), num=3000, depth=5, timeout=1500)
             for b in sims:
                 yield core.Scenario(self._from_behaviour(b, tt, rng), predicted=core.predicted_events(b), source="simulate")
-        for i in range(400 if ctx.quick else 6000):
+        for i in range(400 if ctx.quick else 4000):
             yield core.Scenario(self._random(rng), source="random")
 
     # seeded random driver: longer histories over a small per-scenario universe (so that cookies collide, get replaced
